@@ -189,3 +189,25 @@ Print Assumptions C02_merge_orders_function_of_orders.
 Theorem C02_implicit_orders : forall os, implicit_orders label_cmp os = Some (first_occ label_cmp (concat os)).
 Proof. exact (implicit_orders_spec label_cmp label_cmp_total). Qed.
 Print Assumptions C02_implicit_orders.
+
+(* non-vacuity of the Sanitize / toposort hypotheses *)
+Example C02_ex_sanitize_coherent :
+  coherent [E1; E2; E3; E4; E1; E5] /\
+  sanitize_list [E1; E2; E3; E4; E1; E5] = [E2; E3; E5; E1; E4] /\
+  sanitize_list [E5; E1; E4; E3; E2; E1] = [E2; E3; E5; E1; E4].
+Proof. exact sanitize_coherent_example. Qed.
+Print Assumptions C02_ex_sanitize_coherent.
+
+Example C02_ex_consistent_orders : consistent [[lb; lc; lf; ld; lg]; [lc; la; le; ld]].
+Proof. exact consistent_example. Qed.
+Print Assumptions C02_ex_consistent_orders.
+
+Example C02_ex_merge_orders :
+  merge_orders label_cmp [[lb; lc; lf; ld; lg]; [lc; la; le; ld]] = Some [lb; lc; la; le; lf; ld; lg].
+Proof. exact merge_linked_multiple. Qed.
+Print Assumptions C02_ex_merge_orders.
+
+Example C02_ex_inconsistent_not_respected :
+  merge_orders label_cmp [[lb; la]; [la; lb]] = Some [la; lb] /\ ~ subseq [lb; la] [la; lb].
+Proof. exact inconsistent_not_respected. Qed.
+Print Assumptions C02_ex_inconsistent_not_respected.
